@@ -3,6 +3,7 @@ package main
 import (
 	"encoding/json"
 	"fmt"
+	"time"
 
 	"github.com/couchbase/gocbcore/v10"
 
@@ -333,4 +334,100 @@ func lifeMain(p LifeParams) {
 		}
 	}
 	vrt.SetOutcome(fmt.Sprintf("%v", hist))
+}
+
+// c03_rebalance: completeness of delivery across a real Rebalance(): events that reach a vBucket before the
+// rebalance, while the stream is closed, or right after that vBucket was re-opened while Open() still waits
+// for the (slow) stream request of another vBucket. With automatic checkpointing the rebalance saves what
+// was settled, so the session after the re-open must deliver exactly the events above the stored position,
+// in order and once; later events keep arriving.
+func init() {
+	scenarios["c03_rebalance"] = func(raw json.RawMessage) *vrt.Scenario {
+		return &vrt.Scenario{Name: "c03_rebalance", FreeChoices: true, NoTimerAlt: true, MaxSteps: 400000, Main: func() {
+			resetGlobals()
+			o := EnvOpts{Vbs: 3, Nodes: 2, CheckpointType: "auto", CheckpointInterval: 1000 * time.Second, WrapMeta: true, RebalanceDelay: 2 * time.Second}
+			c := NewCluster(&o)
+			e := NewEnv(c, o)
+			e.Cons.AutoAck = true
+			for vb := uint16(0); vb < 3; vb++ {
+				c.Append(vb, marker(1, 1), symbolPacket("M", 1))
+			}
+			e.Stream.Open()
+			c.WaitIdle()
+			when := vrt.Choose(4, true, "backlog-arrives") // 0 before the rebalance, 1 while closed, 2 right after vb0 re-opened, 3 not at all
+			slow := vrt.Choose(3, true, "slow-vb")          // 0 none, else that vBucket's re-open round trip is slow
+			feed := func() {
+				c.Append(0, marker(2, 3), symbolPacket("M", 2), symbolPacket("D", 3))
+			}
+			desc := fmt.Sprintf("backlog of vb0 arrives %s, %s", []string{"before the rebalance", "while the stream is closed", "right after vb0 was re-opened", "never"}[when],
+				[]string{"no slow re-open", "slow re-open of vb1", "slow re-open of vb2"}[slow])
+			if when == 0 {
+				feed()
+				c.WaitIdle()
+			}
+			armed := slow != 0
+			c.Fault = func(r *gocbcore.SimRequest) gocbcore.SimAnswer {
+				if armed && r.Kind == "openstream" && int(r.Vb) == slow {
+					armed = false
+					return gocbcore.SimAnswer{Kind: "delay", Delay: 3 * time.Second}
+				}
+				return gocbcore.SimAnswer{}
+			}
+			session2 := 0
+			e.EH.On = func(n string) {
+				if n == "BSStart" {
+					session2 = len(e.Cons.Events)
+				}
+			}
+			vrt.GoNamed("rebalancer", func() { e.Stream.Rebalance() })
+			for i := 0; i < 100 && c.StreamOpen(0); i++ {
+				vrt.Sleep(50 * time.Millisecond)
+			}
+			if c.StreamOpen(0) {
+				vrt.Failf("harness: %s: the rebalance did not close vb0", desc)
+				return
+			}
+			stored, _ := e.StoredSeq(0)
+			if when == 1 {
+				feed()
+			}
+			for i := 0; i < 200 && !c.StreamOpen(0); i++ {
+				vrt.Sleep(50 * time.Millisecond)
+			}
+			if when == 2 {
+				feed()
+			}
+			vrt.Sleep(10 * time.Second)
+			vrt.Quiesce()
+			c.WaitIdle()
+			vrt.Quiesce()
+			done := false
+			for _, h := range e.EH.Log {
+				if h == "ARE" {
+					done = true
+				}
+			}
+			if !done {
+				vrt.Failf("%s: the rebalance did not finish; blocked: %v", desc, vrt.BlockedThreads())
+				return
+			}
+			c.Append(0, marker(4, 4), symbolPacket("M", 4))
+			c.WaitIdle()
+			var want, got []uint64
+			for _, pk := range c.Vb[0].Log {
+				if isDoc(pk.Kind) && pk.Seq > stored {
+					want = append(want, pk.Seq)
+				}
+			}
+			for _, d := range e.Cons.Events[session2:] {
+				if d.Vb == 0 {
+					got = append(got, d.Seq)
+				}
+			}
+			if fmt.Sprint(got) != fmt.Sprint(want) {
+				vrt.Failf("%s: after the re-open (resumed from the stored position %d) the consumer received %v of vb0, the server sent %v", desc, stored, got, want)
+			}
+			vrt.SetOutcome(fmt.Sprintf("%s stored=%d got=%v", desc, stored, got))
+		}}
+	}
 }
